@@ -1,6 +1,6 @@
 SPECIFICATION Spec
 CONSTANTS
-  AssignRule = "strict"
+  AssignRule = "numpy"
   CfgSpace <- MCSpace
 INVARIANT MachineAgrees
 INVARIANT CorrectIsGlobal
@@ -8,4 +8,3 @@ INVARIANT NoUnwritten
 INVARIANT IntendedCorrect
 INVARIANT ClosedForm
 INVARIANT ValueLevelInv
-INVARIANT NoSilentWrong
